@@ -165,6 +165,10 @@ func (r *decideRun) loadMem(key string, t types.Type) (AV, bool) {
 		return a, true
 	}
 	if !live {
+		// a part of an object the package initialiser built and nothing else writes
+		if a, ok := r.initObjectPart(key); ok {
+			return a, true
+		}
 		return AV{}, false
 	}
 	// an Alloc starts zeroed
@@ -374,6 +378,19 @@ func (r *decideRun) eval1(v ssa.Value) AV {
 		}
 		// a small helper of the repository: decide it in place with the actual arguments
 		sc := x.Call.StaticCallee()
+		var recvAV *AV
+		if sc == nil && x.Call.IsInvoke() {
+			// an interface method call on a value whose dynamic type the path has decided: the method of that type
+			saved := r.err
+			rv := r.eval(x.Call.Value)
+			r.err = saved
+			if rv.Dyn != nil && rv.Kind != "unknown" {
+				if m := r.fn.Prog.LookupMethod(rv.Dyn, x.Call.Method.Pkg(), x.Call.Method.Name()); m != nil && m.Blocks != nil && inModule(m) {
+					sc = m
+					recvAV = &rv
+				}
+			}
+		}
 		if sc == nil && !x.Call.IsInvoke() {
 			// a call through a decided function value (an entry of a dispatch table)
 			if fv := r.eval(x.Call.Value); fv.Kind == "func" && fv.Fn != nil {
@@ -407,10 +424,14 @@ func (r *decideRun) eval1(v ssa.Value) AV {
 			return r.fail("call %s not covered by the oracle (%s)", x.Name(), x.String())
 		}
 		var fval AV
-		if x.Call.StaticCallee() == nil {
+		if _, isClosure := x.Call.Value.(*ssa.MakeClosure); (x.Call.StaticCallee() == nil || isClosure) && recvAV == nil {
 			fval = r.eval(x.Call.Value)
 		}
-		sub := r.subRun(sc, x.Call.Args, fval)
+		callArgs := x.Call.Args
+		if recvAV != nil {
+			callArgs = append([]ssa.Value{x.Call.Value}, x.Call.Args...)
+		}
+		sub := r.subRun(sc, callArgs, fval)
 		res, err := sub.run()
 		// what the helper stored into objects it allocated (and returns) stays readable by the caller
 		for k, v := range sub.mem {
@@ -942,12 +963,18 @@ func DecideCalls(fn *ssa.Function, oracle Oracle, want func(ssa.CallInstruction)
 		}
 		callee := cc.StaticCallee()
 		var fval AV
+		if _, isClosure := cc.Value.(*ssa.MakeClosure); isClosure && callee != nil {
+			// a closure called where it is made: what it captured comes with it
+			saved := run.err
+			fval = run.eval(cc.Value)
+			run.err = saved
+		}
 		if callee == nil {
 			saved := run.err
 			fval = run.eval(cc.Value)
 			run.err = saved
 			if debugDecide {
-				fmt.Fprintf(os.Stderr, "decide: %*s  function value %s = %s (fn %v)\n", depth*2, "", cc.Value.Name(), fval, fval.Fn)
+				fmt.Fprintf(os.Stderr, "decide: %*s  function value %s = %s (fn %v) mem=%v\n", depth*2, "", cc.Value.Name(), fval, fval.Fn, run.mem)
 			}
 			if fval.Kind != "func" || fval.Fn == nil {
 				// a callback handed in from outside the decided function cannot make the listener's /
